@@ -73,8 +73,8 @@ def handle (op : String) (args : List String) : Option String :=
   | "c08.header" => do
       let bs ← run pBytes args
       pure (resStr (fun (p : Header × Bytes) => headerStr p.1 ++ s!" rest {p.2.length}") (parseHeader bs))
-  | "c08.holds.meaning" | "c08.holds.uchar_scalar_ascii" | "c08.holds.mixed_type_group"
-  | "c08.holds.ascii_wide_values" | "c08.holds.zero_faces_keep_vertices" => do
+  | "c08.holds.meaning" | "c08.holds.uchar_scalar_ascii_witness" | "c08.holds.mixed_type_group_witness"
+  | "c08.holds.ascii_precision_witness" | "c08.holds.zero_faces_witness" => do
       -- args: <spec> then the implementation's canonical result
       let (f, rest) ← pSpec args
       match meaning codingF f with
